@@ -332,30 +332,50 @@ def _cfg_shard(arg):
     harness_keep = ('PYTHONPATH', 'PYTHONHASHSEED', 'PYTHONDONTWRITEBYTECODE')
     cwds = [bld, os.path.join(root, 'src'), '/'] if thorough else [bld, '/']
     saved_env_text = None
-    for (aname, amb), cwd in itertools.product(ambients, cwds):
+    bfgfile = os.path.join(root, 'src', 'build.bfg')
+    tick = [2000000000]
+    modes = [('regenerate', cwd) for cwd in cwds] + [('lazy-after-edit', bld), ('lazy-unchanged', bld)]
+    for (aname, amb), (mode, cwd) in itertools.product(ambients, modes):
         amb = dict(amb)
         for k in harness_keep:
             amb[k] = E[k]
         n += 1
-        r = bfg.run_inproc(['regenerate', bld], amb, cwd)
+        if mode == 'regenerate':
+            r = bfg.run_inproc(['regenerate', bld], amb, cwd)
+        else:
+            if mode == 'lazy-after-edit':
+                # a newer build.bfg (same content) forces the lazy path to regenerate for real
+                tick[0] += 10
+                os.utime(bfgfile, (tick[0], tick[0]))
+            r = bfg.run_inproc(['regenerate', '--lazy', bld], amb, cwd)
         now = primary_files(bld, cfg['backend'])
+        fnow = env_fields(Environment.load(bld)) if r.rc == 0 else None
+        tag = '%s | ambient: %s' % (label, aname)
+        bad = False
         if r.rc != 0:
-            viol.append(('regenerate-fails', '%s | ambient: %s' % (label, aname), r.err[-300:]))
+            viol.append((mode + '-fails', tag, r.err[-300:]))
+            bad = True
         elif now != base:
             which = [k for k in base if base[k] != now[k]]
-            viol.append(('regenerate-differs', '%s | ambient: %s' % (label, aname),
-                         'files differing from configure: %r' % which))
-        if r.rc != 0 or now != base:
+            viol.append((mode + '-differs', tag, 'files differing from configure: %r' % which))
+            bad = True
+        elif fnow != f1:
+            d = {k: (fnow[k], f1[k]) for k in f1 if fnow[k] != f1[k]}
+            viol.append((mode + '-changes-saved-configuration', tag, repr(d)[:300]))
+            bad = True
+        if bad:
             # restore for the next ambient
             shutil.rmtree(bld)
             configure_with(root, cfg, stubbin, E_VARS)
+        if mode != 'regenerate':
+            continue
         r = bfg.run_inproc(['env', bld], amb, cwd)
         n += 1
         got = dict(l.split('=', 1) for l in r.out.splitlines() if '=' in l)
         if r.rc != 0 or got != f1['variables']:
             d = {k: (got.get(k), f1['variables'].get(k))
                  for k in set(got) | set(f1['variables']) if got.get(k) != f1['variables'].get(k)}
-            viol.append(('env-command', '%s | ambient: %s' % (label, aname), repr(d)[:300]))
+            viol.append(('env-command', tag, repr(d)[:300]))
     # `run` sees the saved variables (fresh process; one ambient per kind is enough to be exhaustive
     # over CONFIG_VARS because run only passes env=)
     for aname, amb in ambients[:1] + ambients[-2:]:
@@ -534,7 +554,7 @@ def run(ctx):
     seen = set()
     for law, label, detail in sorted(allv, key=lambda v: (v[0], len(v[1]), v[1])):
         amb = label.split('| ambient: ')[1] if '| ambient: ' in label else ''
-        sig = (law, amb)
+        sig = (law, amb if 'fails' in law else '')
         if sig in seen:
             continue
         seen.add(sig)
